@@ -270,29 +270,218 @@ Proof. reflexivity. Qed.
 Lemma nl_is_the_only_one : forallb (fun l => match l_first_day l with Some _ => true | None => str_eqb (l_name l) [110;108] end) locales = true.
 Proof. vm_compute. reflexivity. Qed.
 
+(* parse(format(dt, fmt), fmt) in the model *)
+Definition roundtrip (rs : bool) (lname : str) (t : pdt) (fmt : str) : result validated :=
+  bind (format lname t fmt) (fun s => parse rs [] lname (mknow 2021 3 4) s fmt).
+
 (* "2024-07-06 Cumartesi" / "YYYY-MM-DD dddd" in locale tr comes back as Friday the 5th *)
 Definition tr_fmt : str := [89;89;89;89;45;77;77;45;68;68;32;100;100;100;100].
-Lemma tr_saturday_roundtrip :
-  exists s, format [116;114] sample_dt tr_fmt = Ok s /\
-            parse false [] [116;114] (mknow 2021 3 4) s tr_fmt = Ok (2024, 7, 5, 0, 0, 0, 0, None).
-Proof. eexists. split; vm_compute; reflexivity. Qed.
+Lemma tr_saturday_roundtrip : roundtrip false [116;114] sample_dt tr_fmt = Ok (2024, 7, 5, 0, 0, 0, 0, None).
+Proof. vm_compute. reflexivity. Qed.
 
 (* "[at]" is rendered verbatim by format but read as the meridiem token by from_format *)
 Definition at_fmt : str := [89;89;89;89;91;97;116;93;72;72].     (* YYYY[at]HH *)
-Lemma bracket_escape_roundtrip_fails :
-  exists s, format [101;110] sample_dt at_fmt = Ok s /\ parse false [] [101;110] (mknow 2021 3 4) s at_fmt = Raise E_ValueError.
-Proof. eexists. split; vm_compute; reflexivity. Qed.
+Lemma bracket_escape_roundtrip_fails : roundtrip false [101;110] sample_dt at_fmt = Raise E_ValueError.
+Proof. vm_compute. reflexivity. Qed.
 
 Definition bs_fmt : str := [89;89;89;89;92;84;72;72].     (* YYYY\THH *)
-Lemma backslash_escape_roundtrip_fails :
-  exists s, format [101;110] sample_dt bs_fmt = Ok s /\ parse false [] [101;110] (mknow 2021 3 4) s bs_fmt = Raise E_ValueError.
-Proof. eexists. split; vm_compute; reflexivity. Qed.
+Lemma backslash_escape_roundtrip_fails : roundtrip false [101;110] sample_dt bs_fmt = Raise E_ValueError.
+Proof. vm_compute. reflexivity. Qed.
 
 (* day 60 of 2020 (Feb 29): the Python parser accepts it, the Rust one rejects the last day of a month *)
 Definition doy_fmt : str := [89;89;89;89;45;68;68;68;68].
 Definition leap_day : pdt := mkpdt 2020 2 29 0 0 0 0 true 0 [] [].
 Lemma ordinal_month_end_backends :
-  exists s, format [101;110] leap_day doy_fmt = Ok s
-            /\ parse false [] [101;110] (mknow 2021 3 4) s doy_fmt = Ok (2020, 2, 29, 0, 0, 0, 0, None)
-            /\ parse true [] [101;110] (mknow 2021 3 4) s doy_fmt = Raise E_ParserError.
-Proof. eexists. repeat split; vm_compute; reflexivity. Qed.
+  roundtrip false [101;110] leap_day doy_fmt = Ok (2020, 2, 29, 0, 0, 0, 0, None)
+  /\ roundtrip true [101;110] leap_day doy_fmt = Raise E_ParserError.
+Proof. split; vm_compute; reflexivity. Qed.
+
+(* ------------------------------------------------------------------ escapes *)
+(* no ']' before the next '[' : the bracket alternative cannot extend further *)
+Fixpoint no_rb_before_lb (s : str) : bool :=
+  match s with
+  | [] => true
+  | c :: t => if c =? 91 then true else if c =? 93 then false else no_rb_before_lb t
+  end.
+
+Lemma bracket_body_none s : no_rb_before_lb s = true -> bracket_body s = None.
+Proof.
+  induction s as [|c s IH]; intros H; [reflexivity|].
+  cbn [no_rb_before_lb] in H. cbn [bracket_body].
+  destruct (c =? 91); [reflexivity|]. destruct (c =? 93); [discriminate|]. rewrite IH by exact H. reflexivity.
+Qed.
+
+Lemma bracket_body_exact body rest :
+  ~ In 91 body -> no_rb_before_lb rest = true -> bracket_body (body ++ 93 :: rest) = Some (body, rest).
+Proof.
+  intros Hb Hr. induction body as [|c body IH].
+  - cbn [app bracket_body]. replace (93 =? 91) with false by reflexivity.
+    rewrite (bracket_body_none rest Hr). reflexivity.
+  - cbn [app bracket_body]. destruct (c =? 91) eqn:E.
+    + exfalso. apply Hb. left. lia.
+    + rewrite IH; [reflexivity|]. intro H. apply Hb. right. exact H.
+Qed.
+
+(* the tokenizer emits the body of [..] as one verbatim piece *)
+Lemma tokenize_bracket f body rest :
+  ~ In 91 body -> no_rb_before_lb rest = true ->
+  tokenize (S f) (91 :: body ++ 93 :: rest) = PBracket body :: tokenize f rest.
+Proof.
+  intros Hb Hr. cbn [tokenize]. replace (91 =? 91) with true by reflexivity.
+  rewrite (bracket_body_exact body rest Hb Hr). reflexivity.
+Qed.
+
+Lemma tokenize_backslash f c rest : c <> 10 -> tokenize (S f) (92 :: c :: rest) = PEscape c :: tokenize f rest.
+Proof.
+  intros Hc. cbn [tokenize]. replace (92 =? 91) with false by reflexivity. cbn [escape_at].
+  destruct (c =? 10) eqn:E; [lia|reflexivity].
+Qed.
+
+Lemma render_bracket ft body ps : render_pieces ft (PBracket body :: ps) = bind (render_pieces ft ps) (fun b => Ok (body ++ b)).
+Proof. reflexivity. Qed.
+
+Lemma render_escape ft c ps : render_pieces ft (PEscape c :: ps) = bind (render_pieces ft ps) (fun b => Ok (c :: b)).
+Proof. reflexivity. Qed.
+
+(* format(dt, "[" + body + "]" + rest) = body + (the rendering of the pieces of rest) *)
+Lemma format_bracket_verbatim d loc t body rest :
+  ~ In 91 body -> no_rb_before_lb rest = true ->
+  format_loc (S d) loc t (91 :: body ++ 93 :: rest) =
+    bind (render_pieces (format_token (format_loc d loc t) loc t) (tokenize (length (91 :: body ++ 93 :: rest)) rest))
+         (fun b => Ok (body ++ b)).
+Proof.
+  intros Hb Hr. cbn [format_loc]. rewrite (tokenize_bracket _ body rest Hb Hr). apply render_bracket.
+Qed.
+
+Lemma format_backslash_verbatim d loc t c rest :
+  c <> 10 ->
+  format_loc (S d) loc t (92 :: c :: rest) =
+    bind (render_pieces (format_token (format_loc d loc t) loc t) (tokenize (length (92 :: c :: rest)) rest))
+         (fun b => Ok (c :: b)).
+Proof. intros Hc. cbn [format_loc]. rewrite (tokenize_backslash _ c rest Hc). apply render_escape. Qed.
+
+(* a whole format that is one escape *)
+Lemma format_only_bracket loc t body : ~ In 91 body -> format_loc 1 loc t (91 :: body ++ [93]) = Ok body.
+Proof.
+  intros Hb. rewrite (format_bracket_verbatim 0 loc t body [] Hb eq_refl).
+  cbn [length]. destruct (length (body ++ [93])); cbn [tokenize render_pieces bind]; rewrite app_nil_r; reflexivity.
+Qed.
+
+(* ------------------------------------------------------------------ named formats: tokenisation computed, fields symbolic *)
+Lemma default_locale_is_en : find_locale default_locale = Some loc_en.
+Proof. vm_compute. reflexivity. Qed.
+Lemma en_locale_is_en : find_locale [101;110] = Some loc_en.
+Proof. vm_compute. reflexivity. Qed.
+
+Ltac compute_tokenize :=
+  match goal with
+  | |- context [tokenize ?f ?s] => let ps := eval vm_compute in (tokenize f s) in change (tokenize f s) with ps
+  end.
+
+Ltac render_step :=
+  first [ rewrite tok_YYYY | rewrite tok_YY_raw | rewrite tok_MM | rewrite tok_DD | rewrite tok_D | rewrite tok_HH | rewrite tok_mm | rewrite tok_ss
+        | rewrite tok_h | rewrite tok_S6
+        | rewrite tok_Z | rewrite tok_ZZ | rewrite tok_zz | rewrite tok_dddd | rewrite tok_ddd | rewrite tok_MMM | rewrite tok_A ];
+  cbn [bind].
+
+Ltac named_format key :=
+  intros t; unfold string_helper, to_string;
+  repeat match goal with
+         | |- context [assoc ?k string_helpers] => let v := eval vm_compute in (assoc k string_helpers) in change (assoc k string_helpers) with v; cbv beta iota
+         | |- context [assoc ?k named_formats] => let v := eval vm_compute in (assoc k named_formats) in change (assoc k named_formats) with v; cbv beta iota
+         end;
+  unfold format; rewrite ?default_locale_is_en, ?en_locale_is_en; cbn [format_loc length];
+  compute_tokenize; cbn [render_pieces bind]; repeat render_step; rewrite ?app_nil_r; try reflexivity.
+
+Definition K (s : list Z) : str := s.
+
+Lemma atom_composition : forall t,
+  string_helper [116;111;95;97;116;111;109;95;115;116;114;105;110;103] t =
+  Ok (render_d (t_year t) ++ [45] ++ render_0wd 2 (t_month t) ++ [45] ++ render_0wd 2 (t_day t) ++ [84]
+      ++ render_0wd 2 (t_hour t) ++ [58] ++ render_0wd 2 (t_minute t) ++ [58] ++ render_0wd 2 (t_second t) ++ format_offset t true).
+Proof. named_format tt. Qed.
+(* to_w3c_string: YYYY-MM-DDTHH:mm:ssZ *)
+Lemma w3c_composition : forall t,
+  string_helper [116;111;95;119;51;99;95;115;116;114;105;110;103] t =
+  Ok (render_d (t_year t) ++ [45] ++ render_0wd 2 (t_month t) ++ [45] ++ render_0wd 2 (t_day t) ++ [84]
+      ++ render_0wd 2 (t_hour t) ++ [58] ++ render_0wd 2 (t_minute t) ++ [58] ++ render_0wd 2 (t_second t) ++ format_offset t true).
+Proof. named_format tt. Qed.
+
+(* to_time_string: HH:mm:ss *)
+Lemma time_composition : forall t,
+  string_helper [116;111;95;116;105;109;101;95;115;116;114;105;110;103] t =
+  Ok (render_0wd 2 (t_hour t) ++ [58] ++ render_0wd 2 (t_minute t) ++ [58] ++ render_0wd 2 (t_second t)).
+Proof. named_format tt. Qed.
+
+(* to_datetime_string: YYYY-MM-DD HH:mm:ss *)
+Lemma datetime_composition : forall t,
+  string_helper [116;111;95;100;97;116;101;116;105;109;101;95;115;116;114;105;110;103] t =
+  Ok (render_d (t_year t) ++ [45] ++ render_0wd 2 (t_month t) ++ [45] ++ render_0wd 2 (t_day t) ++ [32]
+      ++ render_0wd 2 (t_hour t) ++ [58] ++ render_0wd 2 (t_minute t) ++ [58] ++ render_0wd 2 (t_second t)).
+Proof. named_format tt. Qed.
+
+(* to_cookie_string: dddd, DD-MMM-YYYY HH:mm:ss zz (locale en) *)
+Lemma cookie_composition : forall t,
+  string_helper [116;111;95;99;111;111;107;105;101;95;115;116;114;105;110;103] t =
+  bind (tbl_get (l_days_wide loc_en) (weekday0 (ordn t))) (fun dn =>
+  bind (tbl_get (l_months_abbr loc_en) (t_month t)) (fun mn =>
+  Ok (dn ++ [44] ++ [32] ++ render_0wd 2 (t_day t) ++ [45] ++ mn ++ [45] ++ render_d (t_year t) ++ [32]
+      ++ render_0wd 2 (t_hour t) ++ [58] ++ render_0wd 2 (t_minute t) ++ [58] ++ render_0wd 2 (t_second t) ++ [32] ++ (if t_has_tz t then t_abbr t else [])))).
+Proof. named_format tt. Qed.
+
+(* to_rfc850_string: dddd, DD-MMM-YY HH:mm:ss zz *)
+Lemma rfc850_composition : forall t,
+  string_helper [116;111;95;114;102;99;56;53;48;95;115;116;114;105;110;103] t =
+  bind (tbl_get (l_days_wide loc_en) (weekday0 (ordn t))) (fun dn =>
+  bind (tbl_get (l_months_abbr loc_en) (t_month t)) (fun mn =>
+  Ok (dn ++ [44] ++ [32] ++ render_0wd 2 (t_day t) ++ [45] ++ mn ++ [45] ++ skipn 2 (render_d (t_year t)) ++ [32]
+      ++ render_0wd 2 (t_hour t) ++ [58] ++ render_0wd 2 (t_minute t) ++ [58] ++ render_0wd 2 (t_second t) ++ [32] ++ (if t_has_tz t then t_abbr t else [])))).
+Proof. named_format tt. Qed.
+
+(* to_rfc822_string: ddd, DD MMM YY HH:mm:ss ZZ *)
+Lemma rfc822_composition : forall t,
+  string_helper [116;111;95;114;102;99;56;50;50;95;115;116;114;105;110;103] t =
+  bind (tbl_get (l_days_abbr loc_en) (weekday0 (ordn t))) (fun dn =>
+  bind (tbl_get (l_months_abbr loc_en) (t_month t)) (fun mn =>
+  Ok (dn ++ [44] ++ [32] ++ render_0wd 2 (t_day t) ++ [32] ++ mn ++ [32] ++ skipn 2 (render_d (t_year t)) ++ [32]
+      ++ render_0wd 2 (t_hour t) ++ [58] ++ render_0wd 2 (t_minute t) ++ [58] ++ render_0wd 2 (t_second t) ++ [32] ++ format_offset t false))).
+Proof. named_format tt. Qed.
+
+(* to_rfc1036_string: ddd, DD MMM YY HH:mm:ss ZZ *)
+Lemma rfc1036_composition : forall t,
+  string_helper [116;111;95;114;102;99;49;48;51;54;95;115;116;114;105;110;103] t =
+  bind (tbl_get (l_days_abbr loc_en) (weekday0 (ordn t))) (fun dn =>
+  bind (tbl_get (l_months_abbr loc_en) (t_month t)) (fun mn =>
+  Ok (dn ++ [44] ++ [32] ++ render_0wd 2 (t_day t) ++ [32] ++ mn ++ [32] ++ skipn 2 (render_d (t_year t)) ++ [32]
+      ++ render_0wd 2 (t_hour t) ++ [58] ++ render_0wd 2 (t_minute t) ++ [58] ++ render_0wd 2 (t_second t) ++ [32] ++ format_offset t false))).
+Proof. named_format tt. Qed.
+
+(* to_rfc1123_string: ddd, DD MMM YYYY HH:mm:ss ZZ *)
+Lemma rfc1123_composition : forall t,
+  string_helper [116;111;95;114;102;99;49;49;50;51;95;115;116;114;105;110;103] t =
+  bind (tbl_get (l_days_abbr loc_en) (weekday0 (ordn t))) (fun dn =>
+  bind (tbl_get (l_months_abbr loc_en) (t_month t)) (fun mn =>
+  Ok (dn ++ [44] ++ [32] ++ render_0wd 2 (t_day t) ++ [32] ++ mn ++ [32] ++ render_d (t_year t) ++ [32]
+      ++ render_0wd 2 (t_hour t) ++ [58] ++ render_0wd 2 (t_minute t) ++ [58] ++ render_0wd 2 (t_second t) ++ [32] ++ format_offset t false))).
+Proof. named_format tt. Qed.
+
+(* to_rfc2822_string: ddd, DD MMM YYYY HH:mm:ss ZZ *)
+Lemma rfc2822_composition : forall t,
+  string_helper [116;111;95;114;102;99;50;56;50;50;95;115;116;114;105;110;103] t =
+  bind (tbl_get (l_days_abbr loc_en) (weekday0 (ordn t))) (fun dn =>
+  bind (tbl_get (l_months_abbr loc_en) (t_month t)) (fun mn =>
+  Ok (dn ++ [44] ++ [32] ++ render_0wd 2 (t_day t) ++ [32] ++ mn ++ [32] ++ render_d (t_year t) ++ [32]
+      ++ render_0wd 2 (t_hour t) ++ [58] ++ render_0wd 2 (t_minute t) ++ [58] ++ render_0wd 2 (t_second t) ++ [32] ++ format_offset t false))).
+Proof. named_format tt. Qed.
+
+(* to_rss_string: ddd, DD MMM YYYY HH:mm:ss ZZ *)
+Lemma rss_composition : forall t,
+  string_helper [116;111;95;114;115;115;95;115;116;114;105;110;103] t =
+  bind (tbl_get (l_days_abbr loc_en) (weekday0 (ordn t))) (fun dn =>
+  bind (tbl_get (l_months_abbr loc_en) (t_month t)) (fun mn =>
+  Ok (dn ++ [44] ++ [32] ++ render_0wd 2 (t_day t) ++ [32] ++ mn ++ [32] ++ render_d (t_year t) ++ [32]
+      ++ render_0wd 2 (t_hour t) ++ [58] ++ render_0wd 2 (t_minute t) ++ [58] ++ render_0wd 2 (t_second t) ++ [32] ++ format_offset t false))).
+Proof. named_format tt. Qed.
+
+Lemma rfc3339_composition : forall t, string_helper [116;111;95;114;102;99;51;51;51;57;95;115;116;114;105;110;103] t = Ok (isoformat_T t).
+Proof. named_format tt. Qed.
